@@ -15,7 +15,7 @@ import (
 func init() {
 	register(&Prop{
 		ID:          "C09",
-		Explanation: "Decides the wiring of the lifetime threshold: encryption.Validate reports ok only if expiration==0 or the signed timestamp t (time.Unix of the integer parsed from the MAC-covered timestamp part) satisfies t.After(time.Now().Add(-expiration)) and t.Before(time.Now().Add(5 minutes)) with exactly those operands; every caller passes Cookie.Expire as the expiration; the timestamp signed into session and ticket cookies is *CreatedAt of the session being saved and SignedValue writes now.Unix(); SessionStore.Save implementations stamp CreatedAt only when it is unset; refreshSession stamps CreatedAtNow() on the session before re-saving it; MakeCookieFromOptions derives Max-Age from its expiration argument, which for session/ticket cookies is Cookie.Expire (CSRF: Cookie.CSRFExpire, deletions: a negative constant); the server-side entry's TTL is Cookie.Expire passed unchanged through ticket.saveSession -> Store.Save -> redis Set. Added during the build: SessionStore.Save implementations stamp CreatedAt only when unset (R6); refreshSession resets the issue time only when the provider refreshed or reported ErrNotImplemented (R7); every cookie sent derives from the constructors that carry Max-Age (R8, shared with C18.R1). Round 4: request-reachable code never writes a field of the shared options.Cookie (R9); every Provider.RefreshSession answers true only as its delegate's verdict, after the delegate answered true, or after its own token redemption returned no error, so refreshSession never re-stamps an unrefreshed session (R10). Round 6: SessionState.CreatedAt is written only by CreatedAtNow or copied from another session's CreatedAt (R11). Round 7: request handling keeps no state of its own between requests — no store, map update, in-place builtin, atomic/sync.Map write or pointer-receiver library call (singleflight, caches) reached from ServeHTTP targets a package-level variable, an object built at start-up, or a constructor variable captured by the handler it returned, declared in the packages implementing this property (RS; a class-wide who-may-write rule with zero instances today: a correct memoisation would be reported until reviewed).",
+		Explanation: "Decides the wiring of the lifetime threshold: encryption.Validate reports ok only if expiration==0 or the signed timestamp t (time.Unix of the integer parsed from the MAC-covered timestamp part) satisfies t.After(time.Now().Add(-expiration)) and t.Before(time.Now().Add(5 minutes)) with exactly those operands; every caller passes Cookie.Expire as the expiration; the timestamp signed into session and ticket cookies is *CreatedAt of the session being saved and SignedValue writes now.Unix(); SessionStore.Save implementations stamp CreatedAt only when it is unset; refreshSession stamps CreatedAtNow() on the session before re-saving it; MakeCookieFromOptions derives Max-Age from its expiration argument, which for session/ticket cookies is Cookie.Expire (CSRF: Cookie.CSRFExpire, deletions: a negative constant); the server-side entry's TTL is Cookie.Expire passed unchanged through ticket.saveSession -> Store.Save -> redis Set. Added during the build: SessionStore.Save implementations stamp CreatedAt only when unset (R6); refreshSession resets the issue time only when the provider refreshed or reported ErrNotImplemented (R7); every cookie sent derives from the constructors that carry Max-Age (R8, shared with C18.R1). Round 4: request-reachable code never writes a field of the shared options.Cookie (R9); every Provider.RefreshSession answers true only as its delegate's verdict, after the delegate answered true, or after its own token redemption returned no error, so refreshSession never re-stamps an unrefreshed session (R10). Round 6: SessionState.CreatedAt is written only by CreatedAtNow or copied from another session's CreatedAt (R11). Round 7: request handling keeps no state of its own between requests — no store, map update, in-place builtin, atomic/sync.Map write or pointer-receiver library call (singleflight, caches) reached from ServeHTTP targets a package-level variable, an object built at start-up, or a constructor variable captured by the handler it returned, declared in the packages implementing this property (RS; a class-wide who-may-write rule with zero instances today: a correct memoisation would be reported until reviewed). Round 8: Cookie.Expire, Refresh and CSRFExpire are written only by option loading and validation, also in private copies (R12).",
 		NotDecided:  "second-granularity/off-by-one semantics of time.After/Before and Unix truncation (values); behaviour of Redis TTLs.",
 		Run:         runC09,
 	})
